@@ -44,6 +44,12 @@ Theorem c15_show_seq_string : forall its pre rest, show_seq_ok rt_cfg its rest -
 Proof. exact RoundTripInst.rt_show_seq_string. Qed.
 Print Assumptions c15_show_seq_string.
 
+(* a readable sufficient condition for lits_ok: each literal as a whole either does not end in white
+   space or is followed by text that does not start with white space *)
+Theorem c15_lits_simple : forall its rest, lits_simple rt_cfg its rest -> lits_ok rt_cfg its rest.
+Proof. exact (RoundTripProofs.lits_simple_ok rt_cfg). Qed.
+Print Assumptions c15_lits_simple.
+
 (* the same through a File *)
 Theorem c15_show_seq_file : forall its old rest, show_seq_ok rt_cfg its rest -> lits_ok rt_cfg its rest ->
   scan_file rt_cfg (List.skipn (length old) (fst (print_to_file rt_cfg old (length old) its) ++ rest)%list) (length old)
